@@ -351,6 +351,7 @@ func runReplays(rps []*Replay) []ReplayResult {
 	_ = t0
 	// split per replay
 	cur := -1
+	died := -1
 	seenAny := false
 	for _, line := range strings.Split(out, "\n") {
 		line = strings.TrimSpace(line)
@@ -388,6 +389,13 @@ func runReplays(rps []*Replay) []ReplayResult {
 			r.Panicked = true
 			r.Ran = true
 			r.Detail = line
+		case strings.HasPrefix(line, "fatal error: stack overflow") || (strings.HasPrefix(line, "runtime: goroutine stack exceeds") && !r.Ran):
+			// unbounded recursion in the code under test: the Go runtime kills the process (no
+			// recover is possible); it is what a user of the tool sees as a crash
+			r.Panicked = true
+			r.Ran = true
+			r.Detail = "ZZPANIC fatal error: stack overflow (unbounded recursion; native stack limit 64 MB)"
+			died = cur
 		case strings.HasPrefix(line, "ZZASSUME-FAILED"):
 			r.Assume = true
 			r.Ran = true
@@ -408,6 +416,10 @@ func runReplays(rps []*Replay) []ReplayResult {
 	}
 	for i, rp := range rps {
 		_ = os.WriteFile(filepath.Join(rp.Dir, "output.txt"), []byte(res[i].Output+"\n"+res[i].Detail+"\n"), 0o644)
+	}
+	if died >= 0 && died+1 < len(rps) {
+		// the process died at replay `died`: the rest of the batch gets a process of its own
+		copy(res[died+1:], runReplays(rps[died+1:]))
 	}
 	return res
 }
